@@ -10,6 +10,7 @@ from common import *
 import rint
 from symex import *
 from libsum import *
+import spec_codec
 
 KINDS = {
     "sbepp::cursor": "plain",
@@ -144,7 +145,7 @@ def check_one(chk, lib, fn, kind, name, P, vc):
             if not mine or lin(mine[0][2]) != Lin.const(size):
                 errs.append("expected READ(%s, %d); accesses: %s" % (show(X), size, [(e[0], show(e[1]), show(e[2])) for e in acc]))
             E_tpl = targ(fn, 2)
-            want_rev = (E_tpl != "#sbepp::endian::little")   # host is little-endian (checked by caller)
+            want_rev = (E_tpl.split("::")[-1] != spec_codec.native_order(lib))
             rv = p.ret
             val = None
             if isinstance(rv, Obj):
@@ -160,7 +161,7 @@ def check_one(chk, lib, fn, kind, name, P, vc):
                 errs.append("expected exactly WRITE(%s, %d); writes: %s" % (show(X), size, [(show(e[1]), show(e[2])) for e in mine]))
             else:
                 E_tpl = targ(fn, 0)
-                want_rev = (E_tpl != "#sbepp::endian::little") and size > 1
+                want_rev = (E_tpl.split("::")[-1] != spec_codec.native_order(lib)) and size > 1
                 data = mine[0][3]
                 v = sym("value")
                 want = bswap_of(v, size) if want_rev else v
